@@ -52,6 +52,18 @@ CHECKS["C15"] = dict(
     design="DESIGN.md section 3 / C15",
 )
 
+CHECKS["C16"] = dict(
+    technique="whole-package effect and taint lints over the AST: forbidden-source calls (with positive control), set-typed expression inference and order-sensitive sink classification, module/class-level state writes, memoisation discipline",
+    text="Determinism is decided as absence of sources: no environment/time/identity/randomness API, no order-sensitive use of a hash-ordered "
+         "value except three frozen instances whose harmlessness is re-derived structurally on every run, no state surviving from one conversion "
+         "to the next (module containers, class attributes, mutable defaults, instance-keyed memo without clear-before-use), ids from a lowest-free "
+         "search. A dependence on hash seed or conversion order needs one of these constructs, so their absence covers every document and every "
+         "batch order at once.",
+    note="Trusted: lxml and skia-pathops are deterministic functions of their inputs; dict/attribute iteration is insertion order. Not decided: byte "
+         "equality inside those libraries.",
+    design="DESIGN.md section 3 / C16",
+)
+
 NOT_APPLICABLE = {}
 
 
